@@ -39,7 +39,9 @@ prop("C06",
                "correspondence of every history (results, observed choices, full digests) of the REAL FloatingIPPlugin with "
                "gxdrv_plugin + 30% of the cases insert warm-up Filter -> reload through the real updateConfigMap path (node subnet "
                "widened / narrowed / moved to another pool / removed) before the target, judged against the NEW configuration "
-               "(signatures get the suffix :after-reload) + 20% of the cases put ONE injected apiserver fault into the PREFIX history (failing Create of the 2nd+ address of a "
+               "(signatures get the suffix :after-reload) + 30% of the topologies contain pools WITHOUT addresses (before / between / after the others in gateway order); reloads "
+               "also change gateway / mask / vlan of pools that hold allocated addresses which the target then REUSES "
+               "+ 20% of the cases put ONE injected apiserver fault into the PREFIX history (failing Create of the 2nd+ address of a "
                "multi-range bind, failing Get/Update of filter's re-key, failing Delete of a release, reload with a failing Delete), "
                "the judged filter -> bind stay fault-free (signatures get the suffix :after-fault) "
                "+ monitor of the five statements on real outputs: real Filter, then real Bind on EVERY approved node "
